@@ -111,6 +111,13 @@ def shapes(tier, seed):
         add(SX[0], s)
         add(SY[1], s)
         add(None, s)
+    # an expression over a selected variable must stay correlated with it, whatever binds the variable
+    for c in (None, SY[0], SX[0], J[3]):
+        add(c, [["v", "x"], ["a", "x", "a"]])
+        add(c, [["a", "x", "b"], ["v", "x"]])
+        add(c, [["v", "y"], ["v", "x"], ["a", "x", "a"]])
+        add(c, [["a", "x", "a"]])
+        add(c, [["a", "x", "a"], ["a", "x", "b"]])
     add(SX[0], [["v", "x"]], form="entity")
     add(J[0], [["v", "y"]], form="entity")
     # two leaves: join x join, join x single, single x single over different variables (ElseIf vs Union)
@@ -182,8 +189,32 @@ def shapes(tier, seed):
 
 # ------------------------------------------------------------------------------------------ twins
 def _twin_zip_instead_of_product():
-    from entity_query_language import symbolic as sym, utils
-    sym.generate_combinations = utils.lazy_iterate_dicts
+    """Unbound selected variables completed pairwise (zip) instead of by Cartesian product."""
+    from entity_query_language import symbolic as sym
+    from copy import copy
+
+    def bind(self, selected_vars, bindings):
+        gens = [list(v._evaluate__(copy(bindings))) for v in selected_vars]
+        for combo in zip(*gens):
+            new = copy(bindings)
+            for val in combo:
+                new.update({k: x for k, x in val.items() if k not in bindings})
+            yield new
+    sym.QueryObjectDescriptor._bind_selected_variables_ = bind
+
+
+def _twin_uncorrelated_selection():
+    """The defect repaired by 'fix: keep selected expressions correlated ...', re-introduced."""
+    from entity_query_language import symbolic as sym
+    from copy import copy
+
+    def bind(self, selected_vars, bindings):
+        gens = {v: v._evaluate__(copy(bindings)) for v in selected_vars}
+        for sol in sym.generate_combinations(gens):
+            new = copy(bindings)
+            new.update({v._id_: sol[v][v._id_] for v in selected_vars})
+            yield new
+    sym.QueryObjectDescriptor._bind_selected_variables_ = bind
 
 
 def _twin_row_lookup_ignores_expression():
@@ -221,6 +252,8 @@ _J = xy_leaves()
 TWINS = {
     "cartesian_completion_uses_zip": dict(apply=_twin_zip_instead_of_product,
                                           specs=lambda t: [dict(BASE2, cond=single_leaves("x")[0], select=[["v", "x"], ["v", "y"]])]),
+    "selected_expressions_uncorrelated": dict(apply=_twin_uncorrelated_selection,
+                                              specs=lambda t: [dict(BASE2, cond=None, select=[["v", "x"], ["a", "x", "a"]])]),
     "row_lookup_ignores_the_selected_expression": dict(apply=_twin_row_lookup_ignores_expression,
                                                        specs=lambda t: [dict(BASE2, cond=_J[3], select=[["v", "x"], ["a", "y", "a"]])]),
     "NEG_operand_order_always_left_first": dict(apply=_twin_operand_order_always_left_first, expect="survive",
